@@ -1,6 +1,9 @@
 //! C01 / C07: bulkhead. script = [cap, max_wait_ms (-1 none), nf, (op a b)*], nf = n + 1000 * flags
-//! op 1 Poll a | 2 Drop a | 3 Advance a ms | 4 Complete a b (0 ok, 1 err, 2 panic in the response future,
-//!   3 synchronous panic inside the inner service's call()) | 5 call() without a poll
+//! op 1 Poll a | 2 Drop a | 3 Advance a | 4 Complete a b (0 ok, 1 err, 2 panic in the response future,
+//!   3 synchronous panic inside the inner service's call()) | 5 call() without a poll |
+//!   6 call() for every caller (scripted and probe) that has no future yet, then EVERY service handle is dropped
+//! durations (max_wait, Advance): a value below 2^40 is in ms, 2^40 + k is k ns (Lib/TokioTime.ns_of); a whole-ms
+//!   Advance moves the clocks 1 ms at a time, any other in one jump
 //! flags (none of them exists in the model: every route yields (cap, max_wait), every handle shares the semaphore):
 //!   flags % 8       builder route: 0 builder().max_concurrent_calls(cap)[.max_wait_duration(mw)]
 //!                     1 ….max_concurrent_calls(cap).reject_when_full()        (script has mw = 0)
@@ -11,6 +14,8 @@
 //!                     2 every caller through the service returned by layer() itself | 3 each caller through a clone
 //!                     of the previous caller's handle
 //!   (flags / 32) % 2  1 = panicking listeners registered for all four bulkhead events
+//!   (flags / 64) % 2  1 = a call future that has completed is kept alive (un-polled) until its Drop event / the
+//!                     probe's drop-all, as a caller holding on to a finished future does (Manual::keep_done)
 //! max_wait >= 10^15 ms stands for Duration::MAX.
 //! trace per event = [r, inner calls started inside this poll, max in-flight seen by any inner call started during
 //!   this event, wake mask (first 120 callers), in-flight, ids (+1, base 1024) of the requests whose inner call was
@@ -53,13 +58,25 @@ impl Service<i128> for Inner {
     }
 }
 
+const DUR_FLAG: i128 = 1 << 40;
+fn ns_of(e: i128) -> u64 {
+    if e < DUR_FLAG { (e.max(0) as u64).saturating_mul(1_000_000) } else { (e - DUR_FLAG) as u64 }
+}
+
+/// move both clocks by `d` in one step
+async fn jump(d: Duration) {
+    VIRT_NS.fetch_add(d.as_nanos() as u64, std::sync::atomic::Ordering::SeqCst);
+    tokio::time::advance(d).await;
+    settle().await;
+}
+
 fn run(s: &[i128]) -> Vec<i128> {
     let cap = zn(s, 0) as usize;
     let mw = zn(s, 1);
     let nf = zn(s, 2);
     let n = nf.rem_euclid(1000) as usize;
     let flags = nf.div_euclid(1000);
-    let (route, handle, listen) = (flags % 8, (flags / 8) % 4, (flags / 32) % 2);
+    let (route, handle, listen, keep) = (flags % 8, (flags / 8) % 4, (flags / 32) % 2, (flags / 64) % 2);
     let total = n + cap + 1;
     let rt = paused_rt();
     rt.block_on(async move {
@@ -70,7 +87,7 @@ fn run(s: &[i128]) -> Vec<i128> {
         let called = inner.called.clone();
         let wait = |b: tower_resilience_bulkhead::BulkheadConfigBuilder| {
             if mw >= 1_000_000_000_000_000 { b.max_wait_duration(Duration::MAX) }
-            else if mw >= 0 { b.max_wait_duration(Duration::from_millis(mw as u64)) }
+            else if mw >= 0 { b.max_wait_duration(Duration::from_nanos(ns_of(mw))) }
             else { b }
         };
         let mut b = match route {
@@ -89,15 +106,16 @@ fn run(s: &[i128]) -> Vec<i128> {
                 .on_call_finished(|_| panic!("listener"))
                 .on_call_failed(|_| panic!("listener"));
         }
-        let mut base = b.build().layer(inner);
-        let mut shared = base.clone();
+        let base0 = b.build().layer(inner);
+        let mut shared = Some(base0.clone());
+        let mut base = Some(base0);
         let mut callers: Vec<Option<Manual<Res>>> = (0..total).map(|_| None).collect();
         let mut created = vec![false; total];
         let mut tr = Vec::new();
         let mut evs: Vec<(i128, i128, i128, bool)> = s[3.min(s.len())..]
             .chunks(3)
             .filter(|c| c.len() == 3)
-            .filter(|c| c[0] == 3 || (c[1] >= 0 && (c[1] as usize) < n))
+            .filter(|c| c[0] == 3 || c[0] == 6 || (c[1] >= 0 && (c[1] as usize) < n))
             .map(|c| (c[0], c[1], c[2], false))
             .collect();
         for i in 0..n { evs.push((2, i as i128, 0, true)); }
@@ -112,19 +130,7 @@ fn run(s: &[i128]) -> Vec<i128> {
                     let i = a as usize;
                     if !created[i] {
                         created[i] = true;
-                        let fut = match handle {
-                            1 => { futures::future::poll_fn(|cx| shared.poll_ready(cx)).await.ok(); shared.call(i as i128) }
-                            2 => { futures::future::poll_fn(|cx| base.poll_ready(cx)).await.ok(); base.call(i as i128) }
-                            3 => {
-                                let mut svc = shared.clone();
-                                futures::future::poll_fn(|cx| svc.poll_ready(cx)).await.ok();
-                                let f = svc.call(i as i128);
-                                shared = svc;
-                                f
-                            }
-                            _ => { let mut svc = base.clone(); futures::future::poll_fn(|cx| svc.poll_ready(cx)).await.ok(); svc.call(i as i128) }
-                        };
-                        callers[i] = Some(Manual::new(fut));
+                        callers[i] = Some(make(i, handle, keep, &mut base, &mut shared).await);
                     }
                     let m = callers[i].as_mut().unwrap();
                     if op == 5 {
@@ -152,7 +158,20 @@ fn run(s: &[i128]) -> Vec<i128> {
                         m.flag.0.store(false, std::sync::atomic::Ordering::SeqCst);
                     }
                 }
-                3 => advance_ms(a.max(0) as u64).await,
+                3 => {
+                    let d = ns_of(a);
+                    if d % 1_000_000 == 0 { advance_ms(d / 1_000_000).await } else { jump(Duration::from_nanos(d)).await }
+                }
+                6 => {
+                    for i in 0..total {
+                        if !created[i] && base.is_some() {
+                            created[i] = true;
+                            callers[i] = Some(make(i, handle, keep, &mut base, &mut shared).await);
+                        }
+                    }
+                    base = None;
+                    shared = None;
+                }
                 4 => {
                     // the gate of a caller is set once (later Complete events for it are no-ops, as in the model)
                     let o = match b { 0 => Outcome::Ok(a), 1 => Outcome::Err(a), _ => Outcome::Panic };
@@ -178,6 +197,27 @@ fn run(s: &[i128]) -> Vec<i128> {
         }
         tr
     })
+}
+
+type Svc = tower_resilience_bulkhead::Bulkhead<Inner>;
+
+/// call() for caller i through the kind of handle the script asks for
+async fn make(i: usize, handle: i128, keep: i128, base: &mut Option<Svc>, shared: &mut Option<Svc>) -> Manual<Res> {
+    let fut = match handle {
+        1 => { let h = shared.as_mut().unwrap(); futures::future::poll_fn(|cx| h.poll_ready(cx)).await.ok(); h.call(i as i128) }
+        2 => { let h = base.as_mut().unwrap(); futures::future::poll_fn(|cx| h.poll_ready(cx)).await.ok(); h.call(i as i128) }
+        3 => {
+            let mut svc = shared.as_ref().unwrap().clone();
+            futures::future::poll_fn(|cx| svc.poll_ready(cx)).await.ok();
+            let f = svc.call(i as i128);
+            *shared = Some(svc);
+            f
+        }
+        _ => { let mut svc = base.as_ref().unwrap().clone(); futures::future::poll_fn(|cx| svc.poll_ready(cx)).await.ok(); svc.call(i as i128) }
+    };
+    let mut m = Manual::new(fut);
+    m.keep_done = keep == 1;
+    m
 }
 
 fn main() { main_loop(run); }
